@@ -348,7 +348,7 @@ type c15Dlg struct {
 }
 
 func c15Lab(t *testing.T, variant stdVariant, engine string) {
-	V.Require("lab: another dialog with the same Call-ID outlives what ends the first", "lab: a refused re-INVITE leaves the pin in place", "lab: BYE answered dissolves the pin", "lab: NOTIFY terminated dissolves the pin", "lab: NOTIFY active keeps the pin", "lab: probe before expiry", "lab: probe after expiry", "lab: Expires extends the lifetime")
+	V.Require("lab: BYE answered from another socket of the backend", "lab: another dialog with the same Call-ID outlives what ends the first", "lab: a refused re-INVITE leaves the pin in place", "lab: BYE answered dissolves the pin", "lab: NOTIFY terminated dissolves the pin", "lab: NOTIFY active keeps the pin", "lab: probe before expiry", "lab: probe after expiry", "lab: Expires extends the lifetime")
 	svc, err := newStdSvc(variant)
 	if err != nil {
 		V.HarnessError(t, "cannot start %s instance: %v", engine, err)
@@ -631,6 +631,63 @@ func c15Lab(t *testing.T, variant stdVariant, engine string) {
 		V.NonTrivial(strings.Join(hist[1:], "|"))
 		V.SampleEvery(20, func() any { return hist })
 	})
+
+	// The backend answers the BYE from another socket than the one it listens on
+	// (the answer still follows the Via chain through the proxy): the backend has
+	// answered the BYE - the pin is dissolved.
+	if !variant.Bin {
+		rcheck(t, engine+"-bye-other-socket", V.N(8, 60), func(rt *rapid.T) {
+			d, err := pin("")
+			if err != nil {
+				if lost(err) {
+					failf(rt, "%v", err)
+				}
+				V.HarnessError(rt, "%v", err)
+			}
+			if err := steer(d.pinned); err != nil {
+				V.HarnessError(rt, "%v", err)
+			}
+			got, err := request("BYE", d.callID, "f"+d.id, "t"+d.id, "")
+			if err != nil || len(got) != 1 {
+				if lost(err) {
+					failf(rt, "%v", err)
+				}
+				V.HarnessError(rt, "BYE not delivered to one backend: %v", err)
+			}
+			if key(got[0]) != d.pinned || got[0].tcp != nil {
+				return // where the BYE goes is judged by the termination histories
+			}
+			code := rapid.SampledFrom([]int{200, 200, 481, 408, 500}).Draw(rt, "bye status")
+			resp := buildResponse(got[0].msg, code, "Answer", "", "")
+			ep2, err := s.in.hub.udpEP("backend-sending-socket", got[0].ep.ip, 5081)
+			if err != nil {
+				V.HarnessError(rt, "bind: %v", err)
+			}
+			bsend := func(b []byte) error { return ep2.sendUDP(l.Addr, l.UDPPort, b) }
+			s.in.expect(resp)
+			if err := bsend(resp); err != nil {
+				V.HarnessError(rt, "backend send: %v", err)
+			}
+			if _, err := s.in.settle(bsend, 1); err != nil {
+				if lost(err) {
+					failf(rt, "%v", err)
+				}
+				V.HarnessError(rt, "%v", err)
+			}
+			stuck, _, after, err := probe(d, "INFO", "")
+			if err != nil {
+				failf(rt, "%v", err)
+			}
+			if after.Sub(d.pinBefore) > d.life-50*time.Millisecond {
+				return // the pin's lifetime may have run out meanwhile: nothing to tell
+			}
+			V.Class("lab: BYE answered from another socket of the backend")
+			V.NonTrivial("byesock|" + d.id)
+			if stuck {
+				failf(rt, "dialog %s pinned to %s; its BYE was answered with %d by that backend from port 5081 (it listens on 5080; the answer followed the Via chain through the proxy); an INFO bearing the dialog's identifiers still went to the pinned backend although the rotation pointed elsewhere - the answered BYE has not dissolved the pin", d.id, d.pinned, code)
+			}
+		})
+	}
 
 	// every final status a backend can answer a BYE with (the statement says "answers a BYE", whatever the answer)
 	t.Run(engine+"-bye-statuses", func(t *testing.T) {
